@@ -3,3 +3,4 @@ pub mod memtransport;
 pub mod util;
 pub mod wsess;
 pub mod fakes;
+pub mod xmlgen;
